@@ -108,6 +108,53 @@ def eval_modes(case):
     return Eval(V, outcome=[case['stream'], case['supress'], len(V)], nontrivial=bool(text), transitions=3 * len(case['seeds']))
 
 
+def eval_run_transparency(case):
+    """Run mode only (real child): (a) the stream written in two writes with a pause, the cut inside a
+    multi-byte character / inside a line; the display must equal file mode.  (b) program arguments that
+    look like wayland-debug's own markers arrive verbatim."""
+    V = []
+    main_py = os.path.join(sut.REPO, 'main.py')
+    env = dict(os.environ, PYTHONHASHSEED='0', PYTHONDONTWRITEBYTECODE='1')
+    env.pop('WAYLAND_DEBUG', None)
+    with tempfile.TemporaryDirectory(prefix='verif-c13-') as d:
+        try:
+            if case['what'] == 'split_write':
+                data = 'Café – menü [1] (x)\n[1000.000]  -> wl_display@1.sync(new id wl_callback@3)\nnaïve tail'.encode()
+                cut = case['cut']
+                a, b = os.path.join(d, 'a'), os.path.join(d, 'b')
+                open(a, 'wb').write(data[:cut])
+                open(b, 'wb').write(data[cut:])
+                open(os.path.join(d, 'in.log'), 'wb').write(data)
+                pf = subprocess.run(['/venv/bin/python', main_py, '-l', os.path.join(d, 'in.log')], input='q\n', capture_output=True,
+                                    text=True, env=env, cwd=d, timeout=60)
+                pr = subprocess.run(['/venv/bin/python', main_py, '-r', '/bin/sh', '-c', 'cat "$1" >&2; sleep 0.3; cat "$2" >&2', 'sh', a, b],
+                                    input='q\n', capture_output=True, text=True, env=env, cwd=d, timeout=60)
+                if pf.stdout != pr.stdout:
+                    la, lb = pf.stdout.split('\n'), pr.stdout.split('\n')
+                    k = next((i for i, (x, y) in enumerate(zip(la, lb)) if x != y), min(len(la), len(lb)))
+                    V.append(Violation('modes.split_write', case, {'file_mode': la[k:k + 2], 'run_mode': lb[k:k + 2]}))
+            else:
+                words = case['words']
+                outf = os.path.join(d, 'argv')
+                p = subprocess.run(['/venv/bin/python', main_py, '-r', '/bin/sh', '-c', 'out="$1"; shift; : > "$out"; for a in "$@"; do printf "%s\\n" "$a" >> "$out"; done; exit 4',
+                                    'sh', outf] + words, input='q\n', capture_output=True, text=True, env=env, cwd=d, timeout=60)
+                got = open(outf).read().split('\n')[:-1] if os.path.exists(outf) else None
+                if got != words or p.returncode != 4:
+                    V.append(Violation('modes.run_arguments', case, {'program_saw': got, 'returncode': p.returncode, 'stderr': p.stderr[-300:]}))
+        except subprocess.TimeoutExpired:
+            V.append(Violation('modes.timeout', case, {}))
+    return Eval(V, outcome=[case['what'], len(V)], nontrivial=True, transitions=2)
+
+
+def gen_run_transparency(tier):
+    data_len = 104
+    cuts = [3, 4, 5, 9, 10, 20, 21, 22, 60, 95, 99, 100] if tier == 'quick' else list(range(1, data_len))
+    for c in cuts:
+        yield {'what': 'split_write', 'cut': c}
+    for words in (['-g'], ['--gdb', 'x'], ['-lg'], ['-r', '-p'], ['a b', '-Cg', '--run'], ['-f', 'wl_pointer', '-l', 'file'], []):
+        yield {'what': 'arguments', 'words': words}
+
+
 def gen_modes(tier):
     seeds = [0, 1, 2] if tier == 'quick' else list(range(8))
     for name in streams():
@@ -327,6 +374,9 @@ def run(run, tier, seed):
     res = explore.prod(lambda: gen_modes(tier), eval_modes, seed=seed,
                        bound={'hashseeds': 3 if tier == 'quick' else 8, 'statuses': 5 if tier == 'quick' else 256})
     run.add_part('modes_cli', res)
+    res = explore.prod(lambda: gen_run_transparency(tier), eval_run_transparency, seed=seed,
+                       bound={'split_write_cuts': 12 if tier == 'quick' else 'every byte'})
+    run.add_part('run_mode_real_child', res)
     run.rule = ('schedules: every 2-thread schedule of run_program with at most k preemptions (scheduling point = every line '
                 'of runner.py and every model-pipe operation) for 4 child scripts x 2 statuses x 2 pipe capacities; chunks: '
                 'every placement of <=k cuts at every byte offset of 3 streams; modes: real CLI in 3 modes x 6 streams x '
@@ -342,6 +392,8 @@ def replay(case):
     sut.ensure_protocols()
     if 'cuts' in case:
         return eval_chunks(case).viols
+    if 'what' in case:
+        return eval_run_transparency(case).viols
     if 'script' in case:
         return eval_schedules(case).viols
     return eval_modes(case).viols
